@@ -11,7 +11,8 @@ P = {
                   'payment is exactly the sum of gasUsed x effective price over the messages it signed - a function of its own '
                   '(message, gas used) pairs only, invariant under permutation, zero for an account that signed nothing - and the '
                   'signers\' payments add up to the collector\'s gain; the variant that accumulates the fees of consecutive messages and '
-                  'never clears the pending amount is refuted on [A, B]; hard error keeps the whole limit charged (per signer: of its '
+                  'never clears the pending amount is refuted on [A, B]; when one account signs every message the signer model and the '
+                  'single-sender model provably agree; hard error keeps the whole limit charged (per signer: of its '
                   'own messages); link to C17 '
                   '(paid >= floor on both routes when base >= minGasPrice) with a machine-checked counterexample without the guard. '
                   'The model is the executable Gallina transcription of the fee decorators of both routes, VerifyFee, GasToRefund, the '
